@@ -94,7 +94,14 @@ RULE = (
     'wavelength / detector dims and for start points / directions; kind names that only normalise to a kind; (q) '
     'four subprocesses per run that import only the module of the entry point (and of its argument classes) under '
     'another PYTHONHASHSEED and call beam_intersection / quadrature / compute_transmission_map (flat, 2-d, 3-d '
-    'detector layouts) first: compared with the same calls in the worker; '
+    'detector layouts) first: compared with the same calls in the worker; (r) on every shard Materials from real '
+    'ScatteringParams with every field populated: each field the attenuation law names (total scattering, '
+    'absorption) exactly 0 (+0 / -0) / tiny (1e-150..1e-20 barn) / ordinary in all nine combinations and any '
+    'cross-section unit, the seven fields the law does not name in seven arrangements (large unrelated values in '
+    'other units, a table isotope with the two law fields replaced, only the coherent / only the incoherent '
+    'cross-section, both exactly 0, with variances, negative / imaginary lengths): attenuation coefficient against '
+    'the law in long double, maps (incl. the one without attenuation = 1) against the recomputation and against the '
+    'map of the parameter set that has the two law fields only; '
     'a case is never trivial; distinct = distinct (kind of case, unit, axis '
     'class, r/h decade, call shape / quadrature kind / optical-depth decade) signatures'
 )
@@ -115,7 +122,10 @@ ASSUMPTIONS = [
     'tabulated disk rules); second moments are reported only',
     'the canonical multiset of a kind is what the code itself returns for axis +z, base 0 and the '
     'same radius/height objects (an observation compared with an observation)',
-    'mu = n (sigma_s + sigma_a lambda / 1.7982 angstrom) (C20 owns the tables)',
+    'mu = n (sigma_s + sigma_a lambda / 1.7982 angstrom) (C20 owns the tables) with sigma_s = '
+    'total_scattering_cross_section and sigma_a = absorption_cross_section of the ScatteringParams AS GIVEN (a value '
+    'of exactly 0 is a value); no other field of the parameter set enters, so two parameter sets that agree in these '
+    'two fields give the same map (1e-12 absolute)',
     'radius, height, base point and start points in different length units: whatever a method answers '
     'is judged against the fields as given (converted with the independent SI table to the unit of the '
     'base point; a path length may come in any length unit); a scipp UnitError for such a mixture is a '
@@ -1015,10 +1025,19 @@ def judge_mu(st: State, ev):
         return
     ctx.event('attenuation_coefficient')
     ctx.dev('mu relative error', worst)
+    full = _full_tag(st)
+    if full:
+        ctx.event('attenuation_coefficient.every_field_populated')
+        ctx.dev('mu relative error (every field of ScatteringParams populated)', worst)
+        if not np.any(np.asarray(exp) != 0):
+            ctx.event('attenuation_coefficient.every_field_populated.law_fields_zero')
     if worst > 1e-12:
-        ctx.violation('attenuation_value', f'attenuation coefficient off by {worst:.3g} relative',
-                      {'monitor': 'Material.attenuation_coefficient', 'got': repr(float(got[0])),
-                       'expected_1/m': repr(float(np.ravel(exp)[0]))})
+        k = int(np.argmax(np.asarray(err, dtype=np.float64))) if err.size else 0
+        case = {'monitor': 'Material.attenuation_coefficient', 'got': repr(float(got[k])),
+                'expected_1/m': repr(float(np.ravel(exp)[k]))}
+        if full:
+            case['case'] = st.case_descr
+        ctx.violation('attenuation_value', f'attenuation coefficient off by {worst:.3g} relative', case)
     if var_err is not None:
         ctx.event('attenuation_coefficient.variances')
         if np.isfinite(var_err):
@@ -1281,6 +1300,8 @@ def judge_map(st: State, ev):
         ctx.oracle_error('C18 transmission oracle')
         return
     ctx.event('transmission.value')
+    if _full_tag(st):
+        ctx.event('transmission.value.every_field_populated')
     if not unit_ok:
         ctx.violation('transmission_unit', f'transmission has unit {data.unit}', case, **keys)
         return
@@ -1320,6 +1341,8 @@ def judge_map(st: State, ev):
                       case, **keys)
     if mu_max == 0.0:
         ctx.event('transmission.zero_density')
+        if _full_tag(st):
+            ctx.event('transmission.zero_attenuation.every_field_populated')
         d1 = float(np.max(np.abs(T - 1)))
         ctx.dev('transmission |T - 1| without attenuation', d1)
         if not d1 <= TOL_SUM:
@@ -4075,6 +4098,170 @@ def fresh_process_case(rng, st, mods, mode_index, shard):
     return s
 
 
+# ------------------------------------------- every field of ScatteringParams populated ---
+# The documented attenuation law names two fields of the material's ScatteringParams (total
+# scattering and absorption cross-section).  Real parameter sets carry seven more (coherent /
+# incoherent cross-sections, four scattering lengths); the law does not read them.  Each field the
+# law names takes every kind of value it can have (exactly 0, tiny, ordinary), the fields it does not
+# name carry large unrelated values in every arrangement a parameter set allows.
+LAW_VALUE_CLASSES = ('exactly 0', 'tiny', 'ordinary')
+LAW_FIELD_CLASSES = tuple(f'total scattering {a} x absorption {b}'
+                          for a in LAW_VALUE_CLASSES for b in LAW_VALUE_CLASSES)
+OTHER_FIELD_CLASSES = (
+    'every field populated, large unrelated values, other units',
+    'table isotope (ScatteringParams.for_isotope), law fields replaced',
+    'coherent cross-section only (others None)',
+    'incoherent cross-section only (others None)',
+    'coherent and incoherent cross-sections exactly 0, total not their sum',
+    'fields outside the law carry variances',
+    'negative / complex-part scattering lengths, cross-sections in one unit',
+)
+TABLE_ISOTOPES = ('V', 'H', 'Cd', '3He', 'Gd', 'Ni', '10B', 'Al')
+FULL_KIND = 'every field of ScatteringParams'
+
+
+def _full_tag(st):
+    d = st.case_descr
+    return isinstance(d, dict) and d.get('kind') == FULL_KIND
+
+
+def full_fields_case(rng, st, mods, i):
+    """Materials from real ScatteringParams with every field populated: the attenuation coefficient
+    (judge_mu) and the map (judge_map) follow the law in the two fields it names, whatever the other
+    fields hold; the map is the one of the parameter set that has the two named fields only."""
+    import dataclasses
+    ctx = st.ctx
+    Cylinder, Material, ScatteringParams, ctm = mods
+    s = _moderate_solid(rng, ctx)
+    c = make_cylinder(Cylinder, s)
+    lam_A, lam, D, det, beam = _scene(rng, s, 3, 3, ('angstrom', 'nm')[i % 2])
+    size_m = (s['r'] + s['h']) * float(si.factor(sc.Unit(s['U'])))
+    tau = float(rng.uniform(0.4, 2.5))
+    # density: optical depth tau across the solid for a cross-section of 10 barn, whatever the fields
+    # are (so that a material WITHOUT attenuation has an ordinary density and ordinary other fields)
+    d_u = DENS_UNITS[int(rng.integers(0, len(DENS_UNITS)))]
+    n_si = tau / (size_m * 10.0e-28)
+    dens = sc.scalar(n_si / float(si.factor(sc.Unit(d_u))), unit=d_u)
+
+    def xs(value_si, unit, variance=False):
+        v = value_si / float(si.factor(sc.Unit(unit)))
+        return sc.scalar(v, variance=(0.05 * v) ** 2, unit=unit) if variance else sc.scalar(v, unit=unit)
+
+    def law_value(cls, top_barn, k):
+        if cls == 'exactly 0':
+            return -0.0 if (i + k) % 4 == 3 else 0.0
+        if cls == 'tiny':
+            return 1e-28 * 10.0 ** rng.uniform(-150, -20)
+        return 1e-28 * float(rng.uniform(0.2, 1.0)) * top_barn
+
+    def length(scale=1.0, variance=False):
+        v = float(rng.choice([-1.0, 1.0]) * 10.0 ** rng.uniform(0, 2.5)) * scale
+        return sc.scalar(v, variance=(0.1 * v) ** 2, unit='fm') if variance else sc.scalar(v, unit='fm')
+
+    def others(profile, u_law):
+        """The seven fields the law does not name, by arrangement."""
+        u_other = XS_UNITS[(XS_UNITS.index(u_law) + 1 + int(rng.integers(0, 3))) % len(XS_UNITS)]
+        big = lambda: 1e-28 * 10.0 ** rng.uniform(0.7, 2.7)       # noqa: E731   5 .. 500 barn
+        if profile == 0:
+            return dict(coherent_scattering_length_re=length(), coherent_scattering_length_im=length(),
+                        incoherent_scattering_length_re=length(), incoherent_scattering_length_im=length(),
+                        coherent_scattering_cross_section=xs(big(), u_other),
+                        incoherent_scattering_cross_section=xs(big(), XS_UNITS[int(rng.integers(0, 4))]))
+        if profile == 2:
+            return dict(coherent_scattering_cross_section=xs(big(), u_other))
+        if profile == 3:
+            return dict(incoherent_scattering_cross_section=xs(big(), u_other))
+        if profile == 4:
+            return dict(coherent_scattering_length_re=sc.scalar(0.0, unit='fm'),
+                        coherent_scattering_length_im=sc.scalar(0.0, unit='fm'),
+                        incoherent_scattering_length_re=sc.scalar(0.0, unit='fm'),
+                        incoherent_scattering_length_im=sc.scalar(0.0, unit='fm'),
+                        coherent_scattering_cross_section=sc.scalar(0.0, unit=u_other),
+                        incoherent_scattering_cross_section=sc.scalar(0.0, unit=u_law))
+        if profile == 5:
+            return dict(coherent_scattering_length_re=length(variance=True),
+                        coherent_scattering_length_im=length(variance=True),
+                        incoherent_scattering_length_re=length(variance=True),
+                        incoherent_scattering_length_im=length(variance=True),
+                        coherent_scattering_cross_section=xs(big(), u_other, variance=True),
+                        incoherent_scattering_cross_section=xs(big(), u_law, variance=True))
+        return dict(coherent_scattering_length_re=-abs(length()), coherent_scattering_length_im=-abs(length(0.01)),
+                    incoherent_scattering_length_re=-abs(length()), incoherent_scattering_length_im=length(0.01),
+                    coherent_scattering_cross_section=xs(big(), u_law),
+                    incoherent_scattering_cross_section=xs(big(), u_law))
+
+    def build(profile, total, absorption, u_law, k):
+        if profile == 1:
+            name = TABLE_ISOTOPES[(i + k) % len(TABLE_ISOTOPES)]
+            try:
+                base = ScatteringParams.for_isotope(name)
+            except Exception:  # noqa: BLE001   the table is not a C18 matter
+                ctx.count('every_field:table_lookup_failed')
+                return None
+            return dataclasses.replace(base, total_scattering_cross_section=total,
+                                       absorption_cross_section=absorption)
+        return ScatteringParams('Model', total_scattering_cross_section=total,
+                                absorption_cross_section=absorption, **others(profile, u_law))
+
+    def mu_call(m, label):
+        try:
+            m.attenuation_coefficient(lam)
+        except Exception:  # noqa: BLE001  judged by the monitor
+            pass
+        ctx.case(('every field', 'mu', label))
+
+    def map_call(m, label):
+        st.maps.clear()
+        try:
+            ctm(c, m, sc.vector(beam), lam, det, 'cheap')
+        except Exception:  # noqa: BLE001  judged by the map monitor
+            pass
+        ctx.case(('every field', 'map', label, s['U']))
+        return _last_T(st)
+
+    n_prof = len(OTHER_FIELD_CLASSES)
+    for k, law_cls in enumerate(LAW_FIELD_CLASSES):
+        ca, cb = LAW_VALUE_CLASSES[k // 3], LAW_VALUE_CLASSES[k % 3]
+        u_tot = XS_UNITS[int(rng.integers(0, len(XS_UNITS)))]
+        u_abs = XS_UNITS[int(rng.integers(0, len(XS_UNITS)))] if k % 2 else u_tot
+        # ordinary values: total up to 6 barn, absorption up to 4 barn x lambda / lambda_ref at the longest
+        total = xs(law_value(ca, 6.0, k), u_tot)
+        absorption = xs(law_value(cb, 4.0 * 1.7982 / float(lam_A[-1]), k + 1), u_abs)
+        descr = {'kind': FULL_KIND, 'law_fields': law_cls, 'total': [repr(float(total.value)), u_tot],
+                 'absorption': [repr(float(absorption.value)), u_abs], 'lam_angstrom': lam_A.tolist()}
+        bare = Material(ScatteringParams('Bare', total_scattering_cross_section=total.copy(),
+                                         absorption_cross_section=absorption.copy()), dens.copy())
+        mats = {}
+        for p, other_cls in enumerate(OTHER_FIELD_CLASSES):
+            try:
+                sp = build(p, total.copy(), absorption.copy(), u_tot, k)
+            except Exception:  # noqa: BLE001
+                ctx.oracle_error('C18 every-field parameter set')
+                continue
+            if sp is None:
+                continue
+            mats[p] = Material(sp, dens.copy())
+            st.case_descr = dict(descr, other_fields=other_cls)
+            mu_call(mats[p], f'{law_cls} / {other_cls}')
+            ctx.hit('fields outside the law: ' + other_cls)
+        # the map: two arrangements per class of law fields (the pairing moves with the shard), against
+        # the map of the parameter set that has only the two fields the law names
+        st.case_descr = dict(descr, other_fields='None (only the two fields of the law)')
+        t_bare = map_call(bare, f'{law_cls} / bare')
+        for p in dict.fromkeys(((i + k) % n_prof, (i + 2 * k + 1) % n_prof)):
+            if p not in mats:
+                continue
+            st.case_descr = dict(descr, other_fields=OTHER_FIELD_CLASSES[p])
+            t_full = map_call(mats[p], f'{law_cls} / {OTHER_FIELD_CLASSES[p]}')
+            _same_map(st, t_bare, t_full, law_cls, 'fields_outside_the_law_same_map')
+        if mats:
+            ctx.hit('law fields: ' + law_cls)
+    st.maps.clear()
+    st.case_descr = None
+    return s
+
+
+
 # ---------------------------------------------------------------------- driver ---
 def plan(tier, seed):
     # the one heavy case of a run has the last shard for itself (quick) / rides on it (thorough)
@@ -4085,14 +4272,14 @@ def plan(tier, seed):
     if tier == 'quick':
         return [{'rays': 60, 'quads': 48, 'trans': 8, 'state': 5, 'mat_state': 4, 'layouts': 3,
                  'det_layouts': 1, 'units': 1, 'poly': 1, 'conv': 1, 'reuse': 1, 'var': 1, 'map_dims': 1,
-                 'coin': 1, 'coin_expensive': i == 13, 'alias': 1, 'unicode': 1,
+                 'coin': 1, 'coin_expensive': i == 13, 'alias': 1, 'unicode': 1, 'fields': 1,
                  'fresh': i - 1 if 1 <= i <= 4 else None,
                  'sizes': i == 14, 'heavy': False}
                 for i in range(15)] + [
             {'rays': 0, 'quads': 0, 'trans': 0, 'state': 0, 'mat_state': 0, 'heavy': True}]
     return [{'rays': 3000, 'quads': 2250, 'trans': 200, 'state': 150, 'mat_state': 50,
              'layouts': 150, 'det_layouts': 30, 'units': 9, 'poly': 25, 'conv': 10, 'reuse': 10, 'var': 10,
-             'map_dims': 10, 'coin': 6, 'coin_expensive': i in (3, 13), 'alias': 12, 'unicode': 4,
+             'map_dims': 10, 'coin': 6, 'coin_expensive': i in (3, 13), 'alias': 12, 'unicode': 4, 'fields': 6,
              'fresh': i % 4 if i < 12 else None,
              'sizes': i == 14, 'heavy': i == 15} for i in range(16)]
 
@@ -4122,6 +4309,11 @@ def requirements(tier):
         'aliasing.result_after_later_call': 30,
         'unicode_labels_same_map': 200, 'unicode.labels_exact': 200, 'unicode.kind_name': 100,
         'fresh_process.import': 4, 'fresh_process.same_result': 20,
+        'attenuation_coefficient.every_field_populated': 800,
+        'attenuation_coefficient.every_field_populated.law_fields_zero': 90,
+        'transmission.value.every_field_populated': 200,
+        'transmission.zero_attenuation.every_field_populated': 20,
+        'fields_outside_the_law_same_map': 100,
     }
     forced = list(FORCED_AXIS.values()) + [
         'axis z<0', 'axis in the xy-plane at a generic angle',
@@ -4159,6 +4351,8 @@ def requirements(tier):
     forced += ['unicode dims: ' + x[0] for x in UNICODE_PAIRS]
     forced += ['unicode kind name: ' + x for x in UNICODE_KIND_FORMS]
     forced += ['fresh interpreter: ' + x for x in FRESH_MODES]
+    forced += ['law fields: ' + x for x in LAW_FIELD_CLASSES]
+    forced += ['fields outside the law: ' + x for x in OTHER_FIELD_CLASSES]
     if tier == 'thorough':
         forced.append('per-detector loop branch observed (2-d array with rows above the threshold)')
         forced.append('per-detector loop branch observed (2-d array of many thin rows)')
@@ -4346,6 +4540,14 @@ def run(shard, ctx):
             unicode_case(rng4, st, mods, i + shard['index'])
         if shard.get('fresh') is not None:
             fresh_process_case(rng4, st, mods, int(shard['fresh']), shard)
+        # round-8 class: a fifth stream
+        rng5 = np.random.Generator(np.random.PCG64([shard['seed'], shard['index'], 1818181818]))
+        st.origin = 'transmission'
+        for i in range(shard.get('fields', 0)):
+            before = ctx.n_violations
+            s = full_fields_case(rng5, st, mods, i + shard['index'])
+            if i < 1 or ctx.n_violations > before:
+                ctx.sample({'case': 'every field of ScatteringParams', 'solid': _solid_descr(s)})
         if shard.get('sizes'):
             st.origin = 'direct'
             sizes_case(rng3, st, Cylinder)
